@@ -100,10 +100,12 @@ class ImmutableKnotVector(tuple):
         all_knots = list(self.knots) + list(other.knots)
         all_knots = ImmutableKnotVector.__get_unique(all_knots)
         all_mults = [0] * len(all_knots)
+        maxdegree = max(self.degree, other.degree)
         for vector in [self, other]:
             for knot in vector:
                 index = all_knots.index(knot)
-                mult = vector.mult(knot)
+                # Keep the continuity of the knot at the highest degree
+                mult = vector.mult(knot) + maxdegree - vector.degree
                 if mult > all_mults[index]:
                     all_mults[index] = mult
         final_vector = []
